@@ -147,6 +147,46 @@ Example C08_bad_debt_deposit_does_not_shrink :
   end.
 Proof. vm_compute. split; [discriminate|reflexivity]. Qed.
 
+(** * the begin blocker does not panic *)
+
+(* The utilization and borrow-rate computation of AccrueInterest is total: after the fix of
+   CalculateUtilizationRatio no division by zero is left in it. *)
+Theorem C08_begin_block_no_division_by_zero :
+  forall m cash borrows reserves,
+  (exists u, util_ratio cash borrows reserves = Ok u tt) /\
+  (exists apy, borrow_rate m cash borrows reserves = Ok apy tt).
+Proof. intros. split; [apply util_ratio_total|apply borrow_rate_total]. Qed.
+Print Assumptions C08_begin_block_no_division_by_zero.
+
+(* hard.BeginBlocker never panics: for valid reserve factors, oracle factors >= 1 and
+   non-negative borrowed totals, whatever cash, borrows and reserves are. *)
+Theorem C08_begin_block_no_panic :
+  forall e s t fs, env_wf e ->
+  (forall d, (d < nd e)%nat -> PREC <= nthZ fs d) -> (forall x, 0 <= tbor s x) ->
+  exists s', begin_block e s t fs = Ok s' tt.
+Proof. exact begin_block_no_panic. Qed.
+Print Assumptions C08_begin_block_no_panic.
+
+(* regression: the state in which the earlier code halted the chain (reserve coins lent out while
+   cash = reserves, so cash + borrows = reserves with borrows > 0) is still reachable, and the next
+   accruing begin block now succeeds *)
+Definition wc_env : env := mk_env 5 4 [Some (mkMarket 100000000 600000000000000000 false 0 100000000000000000 50000000000000000 0 1000000000000000000 800000000000000000 500000000000000000); Some (mkMarket 100000000 600000000000000000 false 0 50000000000000000 50000000000000000 50000000000000000 100000000000000000 800000000000000000 5000000000000000000); Some (mkMarket 1000000 800000000000000000 false 0 50000000000000000 50000000000000000 500000000000000000 1000000000000000000 800000000000000000 500000000000000000); Some (mkMarket 1000000000000000000 800000000000000000 false 0 100000000000000000 0 50000000000000000 2000000000000000000 800000000000000000 500000000000000000); None] 0.
+Definition wc_init : state := mk_state [[100000000000000000; 100000000000000000; 1000000000000000; 1000000000000000000000000000; 1000000000000000]; [100000000000000000; 100000000000000000; 1000000000000000; 1000000000000000000000000000; 1000000000000000]; [100000000000000000; 100000000000000000; 1000000000000000; 1000000000000000000000000000; 1000000000000000]; [4000000000; 4000000000; 40000000; 40000000000000000000; 40000000]; [0;0;0;0;0]; [0;0;0;0;0]] [312773780000934372881; 1000000000000000002; 1195100000950962640; 2000000000000000000000; 0] [Some 1704067200; Some 1704067200; Some 1704067200; Some 1704067200; None].
+Definition wc_prefix : list op := [Deposit 2%nat [(0%nat, 136643261)];
+  Withdraw 2%nat [(0%nat, 79438528)];
+  Borrow 2%nat [(0%nat, 26921443)];
+  BeginBlock 1706659200 [1032207609358723914; 1000000000000000000; 1000000000000000000; 1000000000000000000];
+  Repay 0%nat 2%nat [(0%nat, 27784452000)];
+  Withdraw 2%nat [(0%nat, 58301145)];
+  Deposit 1%nat [(3%nat, 25000000000000001)];
+  Borrow 1%nat [(0%nat, 1)]].
+Example C08_reserve_borrow_block_succeeds :
+  let s := run wc_env wc_init wc_prefix in
+  bal s (hacc wc_env) 0%nat + tbor s 0%nat = tres s 0%nat /\ 0 < tbor s 0%nat /\
+  match step wc_env s (BeginBlock 1738195200 [1000000000000000000; 1000000000000000000; 1000000000000000000; 1000000000000000000]) with
+  | Ok _ _ => True | _ => False end.
+Proof. vm_compute. repeat split. Qed.
+
 (** * caps on withdrawals and repayments *)
 Theorem C08_withdraw_capped :
   forall e s u c s', withdraw e s u c = Ok s' tt -> u <> hacc e ->
